@@ -63,7 +63,9 @@ theorem mem_queued_cancelBatches (p : Batch → Bool) (s : State) (tx : Tx) :
     · exact Or.inr h
 
 theorem queued_cleanup (z : State) : queued (cleanupCalls (cleanupBatches z)) = queued (cleanupBatches z) := by
-  unfold cleanupCalls
+  obtain ⟨fm, hfm⟩ := cleanupCalls_core (cleanupBatches z)
+  rw [hfm]
+  unfold cleanupCallsCore
   obtain ⟨h1, h2, _⟩ := foldl_refundCall (expiredCalls (heightOf callCleanupSrc (cleanupBatches z)) (cleanupBatches z).calls)
     { cleanupBatches z with calls := if callCleanupDeletes then keptCalls (heightOf callCleanupSrc (cleanupBatches z)) (cleanupBatches z).calls else (cleanupBatches z).calls }
   simp only [queued, batchTxs, h1, h2]
@@ -180,8 +182,8 @@ theorem raisedSum_zero {r : List (Nat × Nat)} {id : Nat} (h : ∀ p ∈ r, p.1 
 /-! ## the three operations that touch one transfer -/
 
 theorem Q_send {s : State} {x : Ext} (hq : Q s x) (hi : Inv s) (a : Addr) (d : String) (t am f : Nat) :
-    Q (step s (.send a d t am f)).1 (x.next s (.send a d t am f)) := by
-  simp only [step, Ext.next]
+    Q (step s (.send a d t am f)).1 (x.nextStd s (.send a d t am f)) := by
+  simp only [step, Ext.nextStd]
   unfold doSend
   split
   · simp only [Nat.left_eq_add, Nat.succ_ne_self, if_false]
@@ -211,12 +213,44 @@ theorem Q_send {s : State} {x : Ext} (hq : Q s x) (hi : Inv s) (a : Addr) (d : S
       · simp only [map_append, map_cons, map_nil, hq.sentIds]
         exact (range'_succ_concat _ hi.txPos).symm
 
+theorem Q_psend {s : State} {x : Ext} (hq : Q s x) (hi : Inv s) (a : Addr) (d : String) (t am f : Nat) :
+    Q (step s (.psend a d t am f)).1 (x.nextStd s (.psend a d t am f)) := by
+  simp only [step, Ext.nextStd]
+  unfold doPSend
+  split
+  · simp only [Nat.left_eq_add, Nat.succ_ne_self, if_false]
+    exact hq
+  · split
+    · simp only [Nat.left_eq_add, Nat.succ_ne_self, if_false]
+      exact hq
+    · simp only [if_true]
+      have hmono : ∀ tx, IsOrig x tx → IsOrig { x with sent := x.sent ++ [⟨s.nextTxId, a, d, t, am, f⟩], sentEvm := x.sentEvm ++ [s.nextTxId] } tx := by
+        rintro tx ⟨o, ho, h⟩
+        exact ⟨o, mem_append_left _ ho, h⟩
+      refine ⟨fun tx htx => ?_, fun e he hc hh => ?_, fun r hr => by have := hq.raisedLt r hr; simp only; omega, ?_⟩
+      · simp only [queued, batchTxs, mem_append] at htx
+        rcases htx with htx | htx
+        · rcases mem_insertDesc htx with rfl | htx
+          · refine ⟨_, mem_append_right _ (mem_singleton_self _), rfl, rfl, rfl, rfl, rfl, ?_⟩
+            simp only
+            rw [raisedSum_zero]
+            · rfl
+            · intro p hp he
+              have := hq.raisedLt p hp
+              omega
+          · exact hmono tx (hq.queued tx (by simp only [queued, mem_append]; exact Or.inl htx))
+        · exact hmono tx (hq.queued tx (by simp only [queued, batchTxs, mem_append]; exact Or.inr htx))
+      · obtain ⟨o, ho, h⟩ := hq.refunds e he hc hh
+        exact ⟨o, mem_append_left _ ho, h⟩
+      · simp only [map_append, map_cons, map_nil, hq.sentIds]
+        exact (range'_succ_concat _ hi.txPos).symm
+
 theorem Q_cancel {s : State} {x : Ext} (hq : Q s x) (id : Nat) (who : Addr) :
-    Q (step s (.cancel id who)).1 (x.next s (.cancel id who)) := by
+    Q (step s (.cancel id who)).1 (x.nextStd s (.cancel id who)) := by
   have hc : cancelSenderCheck = true := by decide
   have hterms : ∀ tx : Tx, refundAmount tx = tx.amount + tx.fee := by
     intro tx; simp [refundAmount, cancelRefundTerms]
-  simp only [step, Ext.next]
+  simp only [step, Ext.nextStd]
   unfold doCancel
   split
   · exact hq
@@ -244,8 +278,8 @@ theorem Q_cancel {s : State} {x : Ext} (hq : Q s x) (id : Nat) (who : Addr) :
             omega
 
 theorem Q_incFee {s : State} {x : Ext} (hq : Q s x) (hi : Inv s) (id : Nat) (who : Addr) (t add : Nat) :
-    Q (step s (.incFee id who t add)).1 (x.next s (.incFee id who t add)) := by
-  simp only [step, Ext.next]
+    Q (step s (.incFee id who t add)).1 (x.nextStd s (.incFee id who t add)) := by
+  simp only [step, Ext.nextStd]
   unfold doIncFee
   split
   · exact hq
@@ -306,9 +340,10 @@ theorem observe_nextTxId (s : State) (h : Nat) (ev : Ev) : (doObserve s h ev).1.
 
 /-! ## every operation -/
 
-theorem Q_step {s : State} {x : Ext} (hq : Q s x) (hi : Inv s) (op : Op) : Q (step s op).1 (x.next s op) := by
+theorem Q_step {s : State} {x : Ext} (hq : Q s x) (hi : Inv s) (op : Op) : Q (step s op).1 (x.nextStd s op) := by
   cases op with
   | send a d t am f => exact Q_send hq hi a d t am f
+  | psend a d t am f => exact Q_psend hq hi a d t am f
   | cancel id who => exact Q_cancel hq id who
   | incFee id who t add => exact Q_incFee hq hi id who t add
   | reqBatch t mf bf fr =>
@@ -337,38 +372,43 @@ theorem Q_step {s : State} {x : Ext} (hq : Q s x) (hi : Inv s) (op : Op) : Q (st
       · rw [hsame]
   | bridgeCall a r to d m cs =>
     simp only [step]
-    rcases bridgeCall_cases s a r to d m cs with hsame | ⟨_, _, hs'⟩
+    rcases bridgeCall_cases s a r to d m cs with hsame | ⟨_, _, _, _, hs'⟩
+    · rw [hsame]; exact Q_of hq rfl rfl (fun _ h => h) (fun _ h => Or.inl h) rfl
+    · rw [hs']; exact Q_of hq rfl rfl (fun _ h => h) (fun _ h => Or.inl h) rfl
+  | pcall a r to d m cs =>
+    simp only [step]
+    rcases pcall_cases s a r to d m cs with hsame | ⟨_, _, _, _, hs'⟩
     · rw [hsame]; exact Q_of hq rfl rfl (fun _ h => h) (fun _ h => Or.inl h) rfl
     · rw [hs']; exact Q_of hq rfl rfl (fun _ h => h) (fun _ h => Or.inl h) rfl
   | observe h ev =>
-    have hx : (x.next s (.observe h ev)).sent = x.sent ∧ (x.next s (.observe h ev)).raised = x.raised := by
+    have hx : (x.nextStd s (.observe h ev)).sent = x.sent ∧ (x.nextStd s (.observe h ev)).raised = x.raised := by
       cases ev <;> exact ⟨rfl, rfl⟩
     refine Q_of hq hx.1 hx.2 (mem_queued_observe s h ev) (observe_settled_new s h ev) ?_
     simp only [step]
     exact observe_nextTxId s h ev
   | exec n =>
-    simp only [step, Ext.next]
+    simp only [step, Ext.nextStd]
     rw [doExec_eq]
     unfold doExecStd
     repeat' split
     all_goals first
       | exact hq
       | (refine Q_of hq rfl rfl (fun _ h => h) (fun e he => ?_) rfl
-         simp only [refundCall, mem_append, mem_singleton] at he
+         simp only [refundCall, dropFromMsg, mem_append, mem_singleton] at he
          rcases he with he | rfl
          · exact Or.inl he
          · exact Or.inr (Or.inl rfl))
   | setParams p =>
-    simp only [step, Ext.next]
+    simp only [step, Ext.nextStd]
     split
     · exact hq
     · exact Q_of hq rfl rfl (fun _ h => h) (fun _ h => Or.inl h) rfl
   | block n =>
-    simp only [step, Ext.next, endBlock_eq]
+    simp only [step, Ext.nextStd, endBlock_eq]
     exact Q_of hq rfl rfl (fun _ h => h) (fun _ h => Or.inl h) rfl
 
 theorem QI_run {s : State} {x : Ext} (hq : Q s x) (hi : Inv s) (ops : List Op) :
-    Q (runExt s x ops).1 (runExt s x ops).2 := by
+    Q (runExtStd s x ops).1 (runExtStd s x ops).2 := by
   induction ops generalizing s x with
   | nil => exact hq
   | cons op ops ih => exact ih (Q_step hq hi op) (inv_step hi op)
@@ -390,6 +430,10 @@ theorem step_settled_calls (s : State) (op : Op) :
   cases op with
   | send a d t am f =>
     simp only [step]; unfold doSend
+    repeat' split
+    all_goals exact fun e he => Or.inl he
+  | psend a d t am f =>
+    simp only [step]; unfold doPSend
     repeat' split
     all_goals exact fun e he => Or.inl he
   | cancel id who =>
@@ -414,7 +458,12 @@ theorem step_settled_calls (s : State) (op : Op) :
     · rw [hsame]; exact fun e he => Or.inl he
   | bridgeCall a r to d m cs =>
     simp only [step]
-    rcases bridgeCall_cases s a r to d m cs with hsame | ⟨_, _, hs'⟩
+    rcases bridgeCall_cases s a r to d m cs with hsame | ⟨_, _, _, _, hs'⟩
+    · rw [hsame]; exact fun e he => Or.inl he
+    · rw [hs']; exact fun e he => Or.inl he
+  | pcall a r to d m cs =>
+    simp only [step]
+    rcases pcall_cases s a r to d m cs with hsame | ⟨_, _, _, _, hs'⟩
     · rw [hsame]; exact fun e he => Or.inl he
     · rw [hs']; exact fun e he => Or.inl he
   | setParams p =>
@@ -434,12 +483,12 @@ theorem step_settled_calls (s : State) (op : Op) :
         simp only
         split
         · intro e he
-          simp only [mem_append, mem_singleton] at he
+          simp only [dropFromMsg, mem_append, mem_singleton] at he
           rcases he with he | rfl
           · exact Or.inl he
           · exact Or.inr (Or.inr ⟨c, hc, rfl, fun h => by cases h⟩)
         · intro e he
-          simp only [refundCall, mem_append, mem_singleton] at he
+          simp only [refundCall, dropFromMsg, mem_append, mem_singleton] at he
           rcases he with he | rfl
           · exact Or.inl he
           · exact Or.inr (Or.inr ⟨c, hc, rfl, fun _ => ⟨rfl, rfl⟩⟩)
@@ -478,12 +527,14 @@ theorem step_settled_calls (s : State) (op : Op) :
 structure R (s : State) (x : Ext) : Prop where
   calls : ∀ e ∈ s.settled, e.isCall = true → CallEntryOf x.createdCalls e
 
-theorem R_step {s : State} {x : Ext} (hr : R s x) (hn : N s x) (op : Op) : R (step s op).1 (x.next s op) := by
-  have hgrow : ∀ c ∈ x.createdCalls, c ∈ (x.next s op).createdCalls := by
+theorem R_step {s : State} {x : Ext} (hr : R s x) (hn : N s x) (op : Op) : R (step s op).1 (x.nextStd s op) := by
+  have hgrow : ∀ c ∈ x.createdCalls, c ∈ (x.nextStd s op).createdCalls := by
     intro c hc
     cases op with
-    | bridgeCall a r to d m cs => simp only [Ext.next]; exact mem_append_left _ hc
+    | bridgeCall a r to d m cs => simp only [Ext.nextStd]; exact mem_append_left _ hc
+    | pcall a r to d m cs => simp only [Ext.nextStd]; exact mem_append_left _ hc
     | send a d t am f => rw [(next_send_fields x s a d t am f).2.2.2.1]; exact hc
+    | psend a d t am f => rw [(next_psend_fields x s a d t am f).2.2.2.1]; exact hc
     | incFee id who t add => rw [(next_incFee_fields x s id who t add).2.2.2.1]; exact hc
     | observe h ev => cases ev <;> exact hc
     | reqBatch t mf bf fr => exact hc
@@ -499,7 +550,7 @@ theorem R_step {s : State} {x : Ext} (hr : R s x) (hn : N s x) (op : Op) : R (st
   · exact ⟨c, hgrow c (hn.csub c hcm), h2⟩
 
 theorem RN_run {s : State} {x : Ext} (hr : R s x) (hn : N s x) (ops : List Op) :
-    R (runExt s x ops).1 (runExt s x ops).2 := by
+    R (runExtStd s x ops).1 (runExtStd s x ops).2 := by
   induction ops generalizing s x with
   | nil => exact hr
   | cons op ops ih => exact ih (R_step hr hn op) (N_step hn op)
